@@ -141,12 +141,11 @@ func builtinArrayPop(call FunctionCall) Value {
 
 func builtinArrayJoin(call FunctionCall) Value {
 	separator := ","
-	argument := call.Argument(0)
-	if argument.IsDefined() {
-		separator = argument.string()
-	}
 	thisObject := call.thisObject()
 	length := int64(toUint32(thisObject.get(propertyLength)))
+	if argument := call.Argument(0); argument.IsDefined() {
+		separator = argument.string()
+	}
 	if length == 0 {
 		return stringValue("")
 	}
